@@ -286,6 +286,8 @@ def rule_eintr(ctx, rep):
 
 META["explanation"] += " " + 'Also (rounds 10-11): the set blocked around the registry / gp locks is a local filled by a dominating sigfillset(); every pthread_create of the libraries runs with all signals blocked in the creator.'
 
+META["explanation"] += " " + 'Also (round 12): no SIG_UNBLOCK in the library; SIG_SETMASK restores a mask saved by the function (or a helper it handed the address to); nesting rules shared from C01.'
+
 RULES = [
     ("C19.eintr", rule_eintr),
     ("C19.safe", rule_safe),
